@@ -52,7 +52,13 @@ def spec_strategy():
         c['fitted'] = draw(st.sampled_from([True, True, True, False]))
         return c
 
-    return st.one_of(uni, uni, biv, gauss(), vine())
+    # the selecting wrapper over *configured instances* (options that only live on the candidate prototype)
+    inst = st.lists(st.sampled_from([{'cls': 'GaussianKDE', 'opts': {'bw_method': 0.1}}, {'cls': 'GaussianKDE', 'opts': {'bw_method': 'silverman'}},
+                                     {'cls': 'GaussianKDE', 'opts': {'bw_method': 0.5}}, {'cls': 'GaussianUnivariate', 'opts': {}}]), min_size=1, max_size=2)
+    wrapped = st.fixed_dictionaries({'kind': st.just('univariate'),
+                                     'model': st.fixed_dictionaries({'cls': st.just('Univariate'), 'opts': st.fixed_dictionaries({'candidate_instances': inst})}),
+                                     'data': c03.data_strategy(300), 'fitted': st.just(True)})
+    return st.one_of(uni, uni, wrapped, biv, gauss(), vine())
 
 
 def strategy():
@@ -202,5 +208,5 @@ def describe(spec):
 
 
 SUBS = [
-    Sub('roundtrip', strategy(), oracle, quick=480, thorough=76800),
+    Sub('roundtrip', strategy(), oracle, quick=800, thorough=76800),
 ]
